@@ -170,6 +170,10 @@ type LegOptions struct {
 	// every response body completely before the transport sees it, which hides
 	// how the transport itself reads a body that arrives in pieces.
 	HTTPNoTap bool
+	// NatsInstances > 1 starts that many FNatsServer instances for the one
+	// processor, all on the leg's subject and in one queue group (a scaled-out
+	// deployment): the broker hands each request to exactly one of them.
+	NatsInstances int
 }
 
 // ---- in-memory server transport --------------------------------------------
@@ -334,9 +338,38 @@ func StartRPCLeg(kind, proto string, processor frugal.FProcessor, nsrv *NatsServ
 		if opt.NatsQueueLen > 0 {
 			b = b.WithQueueLength(opt.NatsQueueLen)
 		}
+		if opt.NatsInstances > 1 {
+			b = b.WithQueueGroup("verif-group")
+		}
 		srv := b.Build()
 		served := make(chan struct{})
 		go func() { srv.Serve(); close(served) }()
+		for extra := 1; extra < opt.NatsInstances; extra++ {
+			econn, err := nsrv.Connect()
+			if err != nil {
+				return nil, err
+			}
+			eb := frugal.NewFNatsServerBuilder(econn, processor, leg.PF, []string{subject}).WithQueueGroup("verif-group")
+			esrv := eb.Build()
+			edone := make(chan struct{})
+			go func() { esrv.Serve(); close(edone) }()
+			leg.stop = append(leg.stop, func() {
+				esrv.Stop()
+				select {
+				case <-edone:
+				case <-time.After(10 * time.Second):
+				}
+				econn.Close()
+			})
+			// wait until this instance is subscribed too
+			for i := 0; i < 2000; i++ {
+				econn.Flush()
+				if nsrv.Subscribers(subject) > extra {
+					break
+				}
+				time.Sleep(2 * time.Millisecond)
+			}
+		}
 		// Serve subscribes asynchronously: wait until the broker routes to it
 		deadline := time.Now().Add(10 * time.Second)
 		for {
